@@ -46,13 +46,18 @@ pub struct Script {
     /// session DROPS the receive future there (cancellation) and starts a new one
     pub cancel_mode: bool,
     pend_next: bool,
+    /// recoverable read failures in the middle of the stream: `(offset, kind)` = once `offset` bytes
+    /// have been delivered, ONE read fails with that error kind and delivers nothing (a read timeout,
+    /// `WouldBlock`, `Interrupted`); the transport carries on afterwards
+    pub faults: VecDeque<(usize, usize)>,
+    delivered: usize,
 }
 
 impl Script {
     fn new(chunks: Vec<Vec<u8>>, term: Term) -> Script {
         let chunks: VecDeque<Vec<u8>> = chunks.into_iter().filter(|c| !c.is_empty()).collect();
         let budget = chunks.iter().map(|c| c.len()).sum::<usize>() + 64;
-        Script { chunks, term, reads: 0, budget, cancel_mode: false, pend_next: false }
+        Script { chunks, term, reads: 0, budget, cancel_mode: false, pend_next: false, faults: VecDeque::new(), delivered: 0 }
     }
     fn do_read(&mut self, space: usize) -> io::Result<Vec<u8>> {
         self.reads += 1;
@@ -63,12 +68,19 @@ impl Script {
         if space == 0 {
             return Ok(Vec::new());
         }
+        if let Some(&(off, k)) = self.faults.front() {
+            if off == self.delivered {
+                self.faults.pop_front();
+                return Err(io::Error::new(IO_KINDS[k], "scripted recoverable failure"));
+            }
+        }
         match self.chunks.pop_front() {
             Some(mut c) => {
                 if c.len() > space {
                     let rest = c.split_off(space);
                     self.chunks.push_front(rest);
                 }
+                self.delivered += c.len();
                 Ok(c)
             }
             None => match self.term {
@@ -217,9 +229,32 @@ fn parse_term(t: &str) -> Term {
 /// Establish a connection (the greeting is delivered as its own read, so nothing is discarded),
 /// then run the session: receive until something else than a response comes back, then `extra` more.
 fn session(flavour: &str, chunks: Vec<Vec<u8>>, term: Term, extra: usize) -> String {
+    session_f(flavour, chunks, Vec::new(), term, extra)
+}
+
+/// `seg` with fault markers: `<n>` = a chunk of n bytes, `!<k>` = one failing read of kind k here
+fn cut_chunks_faults(stream: &[u8], seg: &str) -> (Vec<Vec<u8>>, Vec<(usize, usize)>) {
+    let mut out = Vec::new();
+    let mut faults = Vec::new();
+    let mut p = 0;
+    for l in seg.split(',') {
+        if let Some(k) = l.strip_prefix('!') {
+            faults.push((p, k.parse().expect("fault kind")));
+        } else {
+            let n: usize = l.parse().expect("seg");
+            let e = (p + n).min(stream.len());
+            out.push(stream[p..e].to_vec());
+            p = e;
+        }
+    }
+    (out, faults)
+}
+
+fn session_f(flavour: &str, chunks: Vec<Vec<u8>>, faults: Vec<(usize, usize)>, term: Term, extra: usize) -> String {
     let mut all = vec![GREETING.to_vec()];
     all.extend(chunks);
     let mut script = Script::new(all, term);
+    script.faults = faults.into_iter().map(|(o, k)| (o + GREETING.len(), k)).collect();
     let max_items = script.chunks.iter().map(|c| c.len()).sum::<usize>() + 3 + extra;
     let mut items = Vec::new();
     let mut left = extra;
@@ -845,13 +880,58 @@ fn huge_binary_ops(ops: &mut Vec<String>, seed: u64) {
     }
 }
 
+/// well-formed streams over a transport with recoverable read failures (a read timeout, `WouldBlock`):
+/// a failed read delivers nothing, so the responses must come out as if it had not happened — in
+/// particular the part of a response consumed before the failure is kept
+fn flaky_ops(r: &mut Rng, ops: &mut Vec<String>, n: usize) {
+    for i in 0..n {
+        let k = r.range(1, 3);
+        let rs: Vec<AbsResp> = (0..k).map(|_| gen_resp(r, i % 11 == 0)).collect();
+        let stream = enc_all(&rs);
+        if stream.is_empty() {
+            continue;
+        }
+        let seg = if i % 3 == 0 {
+            // cut on line boundaries: the failure falls after lines that were consumed completely
+            let mut lens = Vec::new();
+            let mut last = 0;
+            for (p, b) in stream.iter().enumerate() {
+                if *b == b'\n' && r.chance(1, 2) {
+                    lens.push((p + 1 - last).to_string());
+                    last = p + 1;
+                }
+            }
+            if last < stream.len() {
+                lens.push((stream.len() - last).to_string());
+            }
+            lens.join(",")
+        } else {
+            gen_seg(r, stream.len())
+        };
+        let mut parts: Vec<String> = seg.split(',').map(|s| s.to_string()).collect();
+        let m = r.range(1, 3);
+        for _ in 0..m {
+            let at = r.below(parts.len() + 1);
+            parts.insert(at, format!("!{}", r.below(IO_KINDS.len())));
+        }
+        let fl = ["s", "a", "c", "S", "A", "s", "a"][i % 7];
+        ops.push(format!("proto.flaky {fl} {} {} eof {}", hex(&stream), parts.join(","), m + r.below(3)));
+    }
+}
+
 pub fn gen(cfg: &Cfg) -> Vec<String> {
     let mut r = Rng::new(cfg.seed);
     let mut ops = Vec::new();
     let scale = if cfg.thorough { 20 } else { 1 };
     match cfg.prop.as_str() {
+        // C19: a response is the ordered collection of what the server sent — also when reads failed
+        // and were retried while it was being received
+        "C19" => {
+            flaky_ops(&mut r, &mut ops, cfg.n.unwrap_or(400 * scale));
+        }
         "C02" => {
             big_pair_ops(&mut ops, cfg.seed);
+            flaky_ops(&mut r, &mut ops, 150 * scale);
             let n = cfg.n.unwrap_or(if cfg.thorough { 4000 } else { 600 });
             for i in 0..n {
                 let big = i % 7 == 0;
@@ -1112,6 +1192,11 @@ pub fn exec(op: &[&str]) -> String {
         "proto.recv" => {
             let stream = unhex(op[2]);
             session(op[1], cut_chunks(&stream, op[3]), parse_term(op[4]), op[5].parse().unwrap())
+        }
+        "proto.flaky" => {
+            let stream = unhex(op[2]);
+            let (chunks, faults) = cut_chunks_faults(&stream, op[3]);
+            session_f(op[1], chunks, faults, parse_term(op[4]), op[5].parse().unwrap())
         }
         "proto.abs" => {
             let rs = unser_resps(op[2]);
